@@ -149,7 +149,19 @@ func (ex *Exec) bulkWrite(arr *Cell, off, n *T, rd reader, site string) {
 		full = true
 	}
 	nl := &LazyArr{Len: lz.Len, Elem: lz.Elem, Mat: map[uint64]*Cell{}}
-	if full {
+	if k, ok := constOf(n); ok && !full && k > 0 && k <= 64 {
+		var t *lazyTail
+		if lt := lz.tail; lt != nil && !lz.Dirty && len(lz.Mat) == 0 && len(lt.vals) < 4096 && C.Add(lt.off, ex.k64(int64(len(lt.vals)))) == off {
+			t = &lazyTail{base: lt.base, off: lt.off, vals: append(append([]Value{}, lt.vals...), make([]Value, k)...)}
+		} else {
+			t = &lazyTail{base: oldRead, off: off, vals: make([]Value, k)}
+		}
+		for j := uint64(0); j < k; j++ {
+			t.vals[uint64(len(t.vals))-k+j] = rd(ex.k64(int64(j)))
+		}
+		nl.tail = t
+		nl.Gen = ex.tailGen(t)
+	} else if full {
 		nl.Gen = func(idx *T) Value { return rd(idx) }
 	} else {
 		nl.Gen = func(idx *T) Value {
@@ -168,6 +180,29 @@ func (ex *Exec) bulkWrite(arr *Cell, off, n *T, rd reader, site string) {
 		ex.lazyUndo = append(ex.lazyUndo, lazyUndoRec{arr, arr.Lazy})
 	}
 	arr.Lazy = nl
+}
+
+// tailGen: generator of a lazy array that is t.base overlaid with the run t.vals at [t.off, t.off+len(t.vals)).
+func (ex *Exec) tailGen(t *lazyTail) func(idx *T) Value {
+	C := ex.C
+	return func(idx *T) Value {
+		rel := C.Sub(idx, t.off)
+		g := C.Ult(rel, ex.k64(int64(len(t.vals))))
+		if g.IsConst() && g.Val == 0 {
+			return t.base(idx)
+		}
+		if r, ok := constOf(rel); ok && r < uint64(len(t.vals)) {
+			return t.vals[r]
+		}
+		v := t.vals[len(t.vals)-1]
+		for j := len(t.vals) - 2; j >= 0; j-- {
+			v = ex.iteValue(C.Eq(rel, ex.k64(int64(j))), t.vals[j], v)
+		}
+		if g.IsConst() {
+			return v
+		}
+		return ex.iteValue(g, v, t.base(idx))
+	}
 }
 
 // copySlice implements copy(d, s); returns the number of elements copied.
@@ -226,7 +261,23 @@ func (ex *Exec) appendSlice(s, t Slice, st types.Type, site string) Value {
 	ex.accountAllocN(et, newLen)
 	rdT := ex.snapReader(t)
 	var gen func(idx *T) Value
-	if nOK && n == 0 {
+	var newTail *lazyTail
+	if kOK && k <= 64 && !(nOK && n == 0) {
+		// a few octets appended behind a symbolic-length prefix: keep (or extend) a flat run instead of nesting
+		if o, ok := constOf(s.Off); ok && o == 0 && s.Arr != nil && s.Arr.Lazy != nil {
+			lz := s.Arr.Lazy
+			if lt := lz.tail; lt != nil && !lz.Dirty && len(lz.Mat) == 0 && len(lt.vals) < 4096 && C.Add(lt.off, ex.k64(int64(len(lt.vals)))) == s.Len {
+				newTail = &lazyTail{base: lt.base, off: lt.off, vals: append(append([]Value{}, lt.vals...), make([]Value, k)...)}
+			}
+		}
+		if newTail == nil {
+			newTail = &lazyTail{base: ex.snapReader(s), off: s.Len, vals: make([]Value, k)}
+		}
+		for j := uint64(0); j < k; j++ {
+			newTail.vals[uint64(len(newTail.vals))-k+j] = rdT(ex.k64(int64(j)))
+		}
+		gen = ex.tailGen(newTail)
+	} else if nOK && n == 0 {
 		gen = func(idx *T) Value { return rdT(idx) }
 	} else {
 		rdS := ex.snapReader(s)
@@ -254,6 +305,7 @@ func (ex *Exec) appendSlice(s, t Slice, st types.Type, site string) Value {
 		return Slice{Arr: o.Root, Off: ex.k64(0), Len: newLen, Cap: newLen}
 	}
 	o := ex.newLazyArrayObj(et, newLen, gen, "append@"+site)
+	o.Root.Lazy.tail = newTail
 	return Slice{Arr: o.Root, Off: ex.k64(0), Len: newLen, Cap: newLen}
 }
 
